@@ -74,6 +74,14 @@ def rand_args(rng):
         else:
             args.append(realize(gen.rand_node(rng, 2)))
     kw = {}
+    if gen.EXTRA and rng.random() < 0.5:       # change-directed: a new source literal, spelled as a keyword / dict key
+        import re as _re
+        for w in rng.sample(gen.EXTRA, min(2, len(gen.EXTRA))):
+            k = rng.choice(gen.spellings(w))
+            if _re.fullmatch(r"[A-Za-z_][A-Za-z0-9_]*", k) and k != "_add_ws":
+                kw[k] = rng.choice(["k", "#a", True])
+            elif k and not _re.search(r"[\s\"'>/=<]", k):
+                args.append({k: rng.choice(["v", 3])})
     for _ in range(rng.randint(0, 4)):
         kw[rng.choice(["class_", "id", "style", "data_y", "for_", "x", "href", "src", "alt", "type", "name", "value", "title", "lang", "rel",
                        "target", "width", "height", "role", "action", "method", "content", "charset"])] = rng.choice(["k", HTML("&"), False, True, 7, "a b"])
